@@ -105,7 +105,7 @@ def conv_code(text, table, xc):
         return 9
 
 
-def arg_desc(arg, it, xc, suffix=None, is_result_ast=False):
+def arg_desc(arg, it, xc, suffix=None, is_result_ast=False, cxx_ast=None):
     from shroud import statements
     tm, specialize = statements.lookup_c_statements(arg)
     attrs, meta = arg.attrs, arg.metaattrs
@@ -113,6 +113,13 @@ def arg_desc(arg, it, xc, suffix=None, is_result_ast=False):
     if not is_result_ast:
         extra.append(it("cdesc") if attrs["cdesc"] is not None else 0)
         extra += [it(s) for s in specialize]
+    spointer = arg.get_indirect_stmt()
+    suffix_override = None
+    if not is_result_ast and meta["is_result"]:
+        # wrap_function: spointer of the C++ function's result, deref attribute instead of cdesc
+        spointer = cxx_ast.get_indirect_stmt()
+        extra = [it(meta["deref"])]
+        suffix_override = suffix
     ex = ",".join(str(x) for x in extra) if extra else "-"
     if is_result_ast:
         cv = {0: 0, 1: 1, 2: 2, 3: 3, 5: 9, 9: 9}[conv_code(arg.typemap.cxx_to_c, xc.CXX_TO_C, xc)]
@@ -122,10 +129,10 @@ def arg_desc(arg, it, xc, suffix=None, is_result_ast=False):
     else:
         cv = {0: 0, 1: 1, 2: 2, 5: 9, 9: 9}[conv_code(tm.c_to_cxx, xc.C_TO_CXX, xc)]
         intent = it(meta["intent"])
-        sfx = arg.stmts_suffix
+        sfx = arg.stmts_suffix if suffix_override is None else suffix_override
         isres = bool(meta["is_result"])
     return ":".join(str(x) for x in [
-        it(arg.typemap.sgroup), it(arg.get_indirect_stmt()), intent, it(sfx), ex,
+        it(arg.typemap.sgroup), it(spointer), intent, it(sfx), ex,
         int(bool(arg.is_pointer())), int(bool(arg.is_reference())), int(bool(attrs["value"])), cv, int(isres)])
 
 
@@ -142,7 +149,7 @@ def func_request(lib, cls, node, it, xc):
     flags = [cls is not None, bool(cxx_ast.is_ctor()), bool(cxx_ast.is_dtor()), "static" in ast.storage,
              bool(ast.func_const), cxx_ast.get_subprogram() == "function", ast.metaattrs["deref"] == "scalar"]
     res = arg_desc(ast, it, xc, suffix=node.generated_suffix, is_result_ast=True)
-    args = [arg_desc(a, it, xc) for a in ast.params]
+    args = [arg_desc(a, it, xc, suffix=node.generated_suffix, cxx_ast=cxx_ast) for a in ast.params]
     return "asm %s %s %s" % ("".join("1" if f else "0" for f in flags), res, " ".join(args))
 
 
@@ -222,22 +229,22 @@ def classify_return(code):
 
 
 def classify_call(code, fname):
-    body = " ".join(l.strip() for l in code)
+    lines = [l.strip() for l in code]
+    body = " ".join(lines)
     if re.search(r"\bdelete\s+SH_this\b", body):
         return "dtorDelete"
-    if re.search(r"=\s*new\s+[\w:<>,\s]+\(", body) and "SHadow_" in body and "->idtor" in body and not re.search(r"\*SHCXX_\w+\s*=", body):
-        if re.search(r"\*\s*SHCXX_rv\s*=\s*new", body):
-            return "ctorNew"
-    if re.search(r"^\s*\*SHCXX_\w+\s*=", "\n".join(code), re.M) or re.search(r";\s*\*SHCXX_\w+\s*=", body):
+    if any(re.match(r"[\w:<>, ]+\*\s*SHCXX_\w+\s*=\s*new\s+[\w:<>, ]+\(", l) for l in lines):
+        return "ctorNew"
+    if any(re.match(r"\*SHCXX_\w+\s*=", l) for l in lines):
         return "assignNew"
     if re.search(r"\b(SHC_rv|SHCXX_rv)\s*=", body):
         return "assign"
     return "plain"
 
 
-def check_library(ctx, lib, bodies, it, xc, names, tag, reqs, meta, language):
+def check_library(ctx, lib, bodies, snaps, it, xc, names, tag, reqs, meta, language):
     """Collect driver requests + the real observations for every wrapped function."""
-    if language != "c++":
+    if language != "cxx":
         return
     for cls, node in walk_functions(lib):
         if not node.wrap.c:
@@ -253,12 +260,13 @@ def check_library(ctx, lib, bodies, it, xc, names, tag, reqs, meta, language):
             meta.append(("error", tag, node.declgen, repr(e)))
             continue
         reqs.append(req)
-        meta.append(("func", tag, cls, node, bodies.get(id(node))))
+        meta.append(("func", tag, cls, node, (bodies.get(id(node)), snaps.get(id(node)))))
 
 
 def compare(ctx, reply, cls, node, body, names, bad, tag, stats):
     from shroud import statements
     head, margs = parse_reply(reply)
+    body, res_stmt1 = body
     fmt = node.fmtdict
     ast = node.ast
     where = "%s:%s" % (tag, node.declgen)
@@ -270,14 +278,16 @@ def compare(ctx, reply, cls, node, body, names, bad, tag, stats):
     # result statement
     rname = names.get(head["e"], "c_default") if head["e"] != "-" else "c_default"
     has_local = bool(node.fstatements.get(statements.compute_name(["c", node.generated_suffix]), None))
-    if not has_local and fmt.stmt1 != rname:
-        note("result statement", fmt.stmt1, rname)
-    stats["stmt:" + fmt.stmt1] = stats.get("stmt:" + fmt.stmt1, 0) + 1
+    fmt_res = (node._fmtresult or {}).get("fmtc", None)
+    if fmt_res is None or not fmt_res.inlocal("stmt1"):
+        fmt_res = fmt
+    if not has_local and res_stmt1 != rname:
+        note("result statement", res_stmt1, rname)
+    stats["stmt:%s" % res_stmt1] = stats.get("stmt:%s" % res_stmt1, 0) + 1
     # prototype
     proto = []
     if head["this"] != "-":
         proto.append("{}{} * {}".format("const " if head["this"] == "const" else "", cls.typemap.c_type, fmt.C_this))
-    fmt_res = node._fmtresult.get("fmtc", fmt) if ast.get_subprogram() == "function" or node._fmtresult else fmt
     calls = []
     if len(margs) != len(ast.params):
         note("argument count", len(ast.params), len(margs))
@@ -317,7 +327,7 @@ def compare(ctx, reply, cls, node, body, names, bad, tag, stats):
             note("this set-up", this_real, head["this"])
         if code is not None and not has_local:
             rr = classify_return(code)
-            if rr != head["ret"]:
+            if rr != head["ret"] and not (head["ret"] == "derefCxx" and rr == "cvar2"):  # cxx_var may be SHC_rv itself
                 note("return statement", rr, head["ret"])
             cc = classify_call(code, fmt.function_name)
             if head["call"] != "other" and cc != head["call"]:
@@ -352,6 +362,7 @@ def run_tie(ctx, ok, thorough, xinfo):
 
     captured = {}
     bodies = {}
+    snaps = {}
     orig_wrap_library = wrapc.Wrapc.wrap_library
     orig_wrap_function = wrapc.Wrapc.wrap_function
     orig_splicer = wrapc.Wrapc._create_splicer
@@ -364,10 +375,14 @@ def run_tie(ctx, ok, thorough, xinfo):
 
     def spy_fn(self, cls, node):
         cur["node"] = node
-        cur["mark"] = len(self.impl)
-        return orig_wrap_function(self, cls, node)
+        res = orig_wrap_function(self, cls, node)
+        fr = (node._fmtresult or {}).get("fmtc", None)
+        if fr is None or not fr.inlocal("stmt1"):
+            fr = node.fmtdict
+        snaps[id(node)] = fr.stmt1 if "stmt1" in fr else None
+        return res
 
-    def spy_spl(self, name, out, default, force=None):
+    def spy_spl(self, name, out, default=None, force=None):
         node = cur.get("node")
         if node is not None and out is self.impl:
             # lines between the opening `{+` and the splicer are the `this` set-up
@@ -394,13 +409,13 @@ def run_tie(ctx, ok, thorough, xinfo):
             d = os.path.join(work, "g%d" % i)
             os.makedirs(d)
             y = shroudrun.write_yaml(d, spec.name + ".yaml", spec.yaml())
-            captured.clear(); bodies.clear(); cur.clear()
+            captured.clear(); bodies.clear(); snaps.clear(); cur.clear()
             cfg, exc, out = shroudrun.run_inproc([y], d)
             if exc is not None or "lib" not in captured:
                 ctx.fail("c02:shroud-exception:%s" % type(exc).__name__, "Shroud failed on a generated description: %r" % (exc,),
                          {"yaml": spec.yaml()})
                 continue
-            check_library(ctx, captured["lib"], dict(bodies), it, xc, names, "gen%d" % i, reqs, meta, captured["language"])
+            check_library(ctx, captured["lib"], dict(bodies), dict(snaps), it, xc, names, "gen%d" % i, reqs, meta, captured["language"])
             # C names: documented template, distinct
             seen = {}
             for cls, node in walk_functions(captured["lib"]):
@@ -443,10 +458,10 @@ def run_tie(ctx, ok, thorough, xinfo):
         for cname, _y, _e in corpus:
             d = os.path.join(work, "c-" + cname)
             os.makedirs(d)
-            captured.clear(); bodies.clear(); cur.clear()
+            captured.clear(); bodies.clear(); snaps.clear(); cur.clear()
             cfg, exc, out = shroudrun.run_corpus_inproc(cname, d)
             if exc is None and "lib" in captured:
-                check_library(ctx, captured["lib"], dict(bodies), it, xc, names, cname, reqs, meta, captured["language"])
+                check_library(ctx, captured["lib"], dict(bodies), dict(snaps), it, xc, names, cname, reqs, meta, captured["language"])
             common.rmtree(d)
     finally:
         wrapc.Wrapc.wrap_library = orig_wrap_library
